@@ -246,7 +246,6 @@ func doSearch(expr string, docText string, unordered bool) outcome {
 	return o
 }
 
-
 func fnv32(s string) uint32 {
 	h := uint32(2166136261)
 	for i := 0; i < len(s); i++ {
